@@ -209,3 +209,6 @@ Definition check (c : case) : bool :=
       | _, _ => false
       end
   end.
+
+(** pure helpers have one kind of observable *)
+Definition mask (c : case) : Z := if check c then 0%Z else 1%Z.
